@@ -153,7 +153,7 @@ def body_nearest(env, source='self', n0=2, n1=3):
     env.same(got, want, 'buffer equals nearest-pixel resampling (%s, %s, scalar0=%d)' % (source, kind, scalar0))
 
 
-def body_cache(env, source='self', nreq=3, r1_kind=None):
+def body_cache(env, source='self', nreq=3, r1_kind=None, r0_dim0=None):
     """sequences of requests under one cache id: every answer equals the uncached answer"""
     from glue.core import fixed_resolution_buffer as frb
     frb.ARRAY_CACHE.clear()
@@ -173,7 +173,7 @@ def body_cache(env, source='self', nreq=3, r1_kind=None):
     for r in range(nreq):
         if r == 0:
             k = 'x'
-            i0 = env.choice('r0_dim0', 2)
+            i0 = env.choice('r0_dim0', 2) if r0_dim0 is None else r0_dim0
             i1 = 0
         else:
             if r == 1:
@@ -252,7 +252,12 @@ def harnesses(tier):
                       bounds=dict(size_max=12 if tier == 'quick' else 40, steps=[1, 2, 3]),
                       assumptions=['slice.indices replaced by its CPython algorithm (S-slice); helper extracted by AST from the current source']))
     if tier == 'thorough':
-        for src in SOURCES:
-            hs.append(Harness('cache %s x4' % src, body_cache, params=dict(source=src, nreq=4), validate=25, weight=20, wall_s=3400,
-                              max_paths=2000000, bounds=dict(source=src, requests=4)))
+        # four requests: for the two sources with distinct cache logic, split by the kind of the second and the first bound of the first request
+        for src in ('self', 'lower-dim'):
+            for k1 in range(3):
+                for d0 in range(2):
+                    hs.append(Harness('cache %s x4 second=%s first-dim0=%d' % (src, ['x', 'y', 'mask'][k1], d0), body_cache,
+                                      params=dict(source=src, nreq=4, r1_kind=k1, r0_dim0=d0), validate=10, weight=20, wall_s=3400,
+                                      max_paths=2000000, bounds=dict(source=src, requests=4, second_request=['x', 'y', 'mask'][k1],
+                                                                     first_request_dim0=['range', 'scalar'][d0])))
     return hs
